@@ -19,6 +19,9 @@ CONSTANTS
  LoopChecksFlag = TRUE
  AssertLine = FALSE
  CapOrder <- GCap
+ SlotOf <- GSlot
+ TagCheck = TRUE
+ TinyTable = FALSE
  StopAllowed = TRUE
 SPECIFICATION MCSpec
 CHECK_DEADLOCK FALSE
